@@ -1,7 +1,575 @@
-//! C18 (includes) and the include part of C11.  Filled in later.
+//! C18 (includes act as in-place textual inclusion with ordered path search), the include parts
+//! of C11 (gating) and C12 (spans of diagnostics raised inside included files).
 
 use crate::engine::*;
+use crate::pipeline::all_semantic_errors;
+use oq3_semantics::semantic_error::SemanticErrorList;
+use oq3_semantics::symbols::SymbolType;
+use oq3_semantics::syntax_to_semantics::{parse_source_file, parse_source_file_with_search, parse_source_string_with_path_search};
+use oq3_source_file::{SourceFile, SourceTrait};
+use serde_json::json;
+use std::collections::BTreeMap;
+use std::path::{Path, PathBuf};
+use std::sync::atomic::{AtomicU64, Ordering};
+use std::sync::RwLock;
 
-pub fn run_c11_includes(_ctx: &RunCtx) {}
+static ENV_LOCK: RwLock<()> = RwLock::new(());
+static CASE_ID: AtomicU64 = AtomicU64::new(0);
 
-pub fn run_c12_includes(_ctx: &RunCtx) {}
+fn work_root() -> PathBuf {
+    verif_root().join("harness").join("target").join("work").join(format!("{}", std::process::id()))
+}
+
+pub fn cleanup_work() {
+    let _ = std::fs::remove_dir_all(work_root());
+}
+
+#[derive(Clone, Debug)]
+pub struct FileSpec {
+    /// name as written in include statements (may contain a sub directory)
+    pub name: String,
+    /// directories (indices) that contain a copy
+    pub dirs: Vec<usize>,
+    /// body template: `{M}` is replaced by a marker unique per (file, dir) copy
+    pub body: String,
+    pub has_semantic_fault: bool,
+    pub has_syntax_fault: bool,
+}
+
+#[derive(Clone, Debug)]
+pub struct Arrangement {
+    pub n_dirs: usize,
+    pub files: Vec<FileSpec>,
+    pub main: String,
+    /// search list as directory indices; None = no list given
+    pub search: Option<Vec<usize>>,
+    /// QASM3_PATH as directory indices (only consulted when `search` is None)
+    pub env: Option<Vec<usize>>,
+    pub entry: Entry,
+    pub decoy_stdgates: bool,
+}
+
+#[derive(Clone, Copy, Debug, PartialEq)]
+pub enum Entry {
+    StringWithSearch,
+    FileWithSearch,
+    FilePlain,
+}
+
+const NAMES: &[&str] = &["a.inc", "b.qasm", "lib/c.inc", "d.inc"];
+
+fn marker(file: usize, dir: usize) -> String {
+    format!("mk_f{file}_d{dir}")
+}
+
+pub fn gen_arrangement(src: &mut Src) -> Arrangement {
+    let n_dirs = 1 + src.below(3);
+    let n_files = 1 + src.below(4);
+    let mut files: Vec<FileSpec> = vec![];
+    for f in 0..n_files {
+        let mut dirs: Vec<usize> = (0..n_dirs).filter(|_| src.chance(3, 5)).collect();
+        if dirs.is_empty() && src.chance(4, 5) {
+            dirs.push(src.below(n_dirs));
+        }
+        let has_semantic_fault = src.chance(1, 5);
+        let has_syntax_fault = src.chance(1, 12);
+        let mut body = String::new();
+        // nested include of a later file (no cycles)
+        if f + 1 < n_files && src.chance(2, 5) {
+            body.push_str(&format!("include \"{}\";\n", NAMES[f + 1 + src.below(n_files - f - 1)]));
+        }
+        body.push_str("int {M} = 1;\n");
+        match src.below(4) {
+            0 => body.push_str(&format!("gate g{f} q {{ U(0, 0, 0) q; }}\n")),
+            1 => body.push_str(&format!("def fn{f}(int a) -> int {{ return a; }}\n")),
+            2 => body.push_str(&format!("const int c{f} = {};\nint[c{f}] w{f};\n", 4 + f)),
+            _ => body.push_str(&format!("qubit qf{f};\n")),
+        }
+        if has_semantic_fault {
+            body.push_str(["undeclared_name = 1;\n", "int {M} = 2;\n", "qubit zq; U(1) zq;\n"][src.below(3)]);
+        }
+        if has_syntax_fault {
+            body.push_str(["int = ;\n", "gate {\n", "x = (1;\n"][src.below(3)]);
+        }
+        files.push(FileSpec { name: NAMES[f].to_string(), dirs, body, has_semantic_fault, has_syntax_fault });
+    }
+    // main program
+    let mut main = String::new();
+    if src.bool() {
+        main.push_str("include \"stdgates.inc\";\n");
+    }
+    main.push_str("int before = 0;\nqubit mq;\n");
+    let n_inc = 1 + src.below(3);
+    for _ in 0..n_inc {
+        let f = src.below(n_files);
+        match src.below(10) {
+            0 => main.push_str("include \"missing_file.inc\";\n"),
+            1 => main.push_str(&format!("if (true) {{ include \"{}\"; }}\n", files[f].name)),
+            _ => main.push_str(&format!("include \"{}\";\n", files[f].name)),
+        }
+        if src.bool() {
+            main.push_str(&format!("before = {};\n", src.below(9)));
+        }
+    }
+    // uses after the includes (may or may not resolve, both analyses must agree)
+    main.push_str("int after = before;\n");
+    for f in 0..n_files {
+        if src.chance(1, 2) {
+            main.push_str(&format!("g{f} mq;\n"));
+        }
+        if src.chance(1, 3) {
+            main.push_str(&format!("after = fn{f}(after);\n"));
+        }
+        if src.chance(1, 3) {
+            main.push_str(&format!("after = (after + {});\n", marker(f, src.below(n_dirs))));
+        }
+    }
+    if src.chance(1, 4) {
+        main.push_str("h mq;\n");
+    }
+    let entry = [Entry::StringWithSearch, Entry::StringWithSearch, Entry::FileWithSearch, Entry::FilePlain][src.below(4)];
+    let mut order: Vec<usize> = (0..n_dirs).collect();
+    // random permutation of the directories
+    for i in (1..order.len()).rev() {
+        order.swap(i, src.below(i + 1));
+    }
+    let k = 1 + src.below(n_dirs);
+    let list: Vec<usize> = order[..k].to_vec();
+    let (search, env) = match (entry, src.below(4)) {
+        (Entry::FilePlain, 0) => (None, None),
+        (Entry::FilePlain, _) => (None, Some(list)),
+        (_, 0) => (None, Some(list)),
+        (_, 1) => (None, None),
+        (_, _) => {
+            // a list is given: the environment must not be consulted even if set
+            let env = if src.bool() { Some(order.iter().rev().cloned().collect()) } else { None };
+            (Some(list), env)
+        }
+    };
+    Arrangement { n_dirs, files, main, search, env, entry, decoy_stdgates: src.chance(1, 4) }
+}
+
+struct Laid {
+    root: PathBuf,
+    dirs: Vec<PathBuf>,
+}
+
+fn materialise(a: &Arrangement) -> std::io::Result<Laid> {
+    let id = CASE_ID.fetch_add(1, Ordering::Relaxed);
+    let root = work_root().join(format!("c{id}"));
+    std::fs::create_dir_all(&root)?;
+    let root = std::fs::canonicalize(&root)?;
+    let mut dirs = vec![];
+    for d in 0..a.n_dirs {
+        let p = root.join(format!("d{d}"));
+        std::fs::create_dir_all(p.join("lib"))?;
+        dirs.push(p);
+    }
+    for (fi, f) in a.files.iter().enumerate() {
+        for d in &f.dirs {
+            std::fs::write(dirs[*d].join(&f.name), f.body.replace("{M}", &marker(fi, *d)))?;
+        }
+    }
+    if a.decoy_stdgates {
+        std::fs::write(dirs[0].join("stdgates.inc"), "int decoy_stdgates_was_read = 1;\n")?;
+    }
+    std::fs::create_dir_all(root.join("main"))?;
+    std::fs::write(root.join("main").join("main.qasm"), &a.main)?;
+    Ok(Laid { root, dirs })
+}
+
+/// Reference resolution rule.
+fn resolve(a: &Arrangement, l: &Laid, name: &str) -> Option<PathBuf> {
+    let p = Path::new(name);
+    if p.is_absolute() {
+        return if p.is_file() { Some(p.to_path_buf()) } else { None };
+    }
+    let order: Vec<usize> = match (&a.search, &a.env) {
+        (Some(s), _) => s.clone(),
+        (None, Some(e)) => e.clone(),
+        (None, None) => vec![],
+    };
+    for d in order {
+        let cand = l.dirs[d].join(name);
+        if cand.is_file() {
+            return Some(cand);
+        }
+    }
+    None
+}
+
+/// Textual inlining by the reference rule. Unreadable includes are replaced by a marker comment
+/// (they yield a diagnostic in the implementation and nothing else).
+fn inline(a: &Arrangement, l: &Laid, text: &str, depth: usize, files_read: &mut Vec<PathBuf>, any_syntax_fault: &mut bool) -> String {
+    let mut out = String::new();
+    for line in text.lines() {
+        let t = line.trim();
+        if let Some(rest) = t.strip_prefix("include \"") {
+            if let Some(name) = rest.strip_suffix("\";") {
+                if name == "stdgates.inc" {
+                    out.push_str(line);
+                    out.push('\n');
+                    continue;
+                }
+                match resolve(a, l, name) {
+                    Some(p) if depth < 6 => {
+                        let body = std::fs::read_to_string(&p).unwrap_or_default();
+                        files_read.push(p.clone());
+                        if a.files.iter().any(|f| f.name == name && f.has_syntax_fault) {
+                            *any_syntax_fault = true;
+                        }
+                        out.push_str(&inline(a, l, &body, depth + 1, files_read, any_syntax_fault));
+                    }
+                    _ => out.push_str("// unreadable include\n"),
+                }
+                continue;
+            }
+        }
+        out.push_str(line);
+        out.push('\n');
+    }
+    out
+}
+
+struct Run {
+    stmts: Vec<String>,
+    symbols: Vec<(String, String)>,
+    kinds: Vec<String>,
+    any_syntax: bool,
+    tagged: Vec<(PathBuf, Vec<(String, usize, usize)>)>,
+    included_paths: Vec<PathBuf>,
+    span_fails: Vec<(String, String)>,
+}
+
+fn collect_lists(l: &SemanticErrorList, out: &mut Vec<(PathBuf, Vec<(String, usize, usize)>)>) {
+    out.push((l.source_file_path().clone(), l.iter().map(|e| (format!("{:?}", e.kind()), usize::from(e.range().start()), usize::from(e.range().end()))).collect()));
+    for i in l.include_errors() {
+        collect_lists(i, out);
+    }
+}
+
+fn collect_included(files: &[SourceFile], out: &mut Vec<SourceFile>) {
+    for f in files {
+        out.push(f.clone());
+        collect_included(f.included_files(), out);
+    }
+}
+
+fn check_spans(main_text: Option<&str>, main_tree: Option<oq3_syntax::SyntaxNode>, included: &[SourceFile], tagged: &[(PathBuf, Vec<(String, usize, usize)>)], fails: &mut Vec<(String, String)>) {
+    // every semantic diagnostic's range is the range of a node of the tree of the file its list is tagged with
+    let mut all = vec![];
+    collect_included(included, &mut all);
+    for (i, (path, errs)) in tagged.iter().enumerate() {
+        if errs.is_empty() {
+            continue;
+        }
+        let (text, tree): (Option<String>, Option<oq3_syntax::SyntaxNode>) = if i == 0 {
+            (main_text.map(|s| s.to_string()), main_tree.clone())
+        } else {
+            match all.iter().find(|f| f.file_path() == path.as_path()) {
+                Some(f) => (std::fs::read_to_string(f.file_path()).ok(), f.ast().filter(|a| a.have_parse()).map(|a| a.syntax_node())),
+                None => (None, None),
+            }
+        };
+        for (kind, s, e) in errs {
+            let k = kind.split('(').next().unwrap_or(kind).to_string();
+            if k == "FileNotFound" || k == "IOError" || k == "PermissionDenied" {
+                continue; // judged separately (the range refers to the includer)
+            }
+            match (&text, &tree) {
+                (Some(t), Some(tr)) => {
+                    if s > e || *e > t.len() || !t.is_char_boundary(*s) || !t.is_char_boundary(*e) {
+                        fails.push((format!("C12:include:range-out-of-bounds:{k}"), format!("{s}..{e} in {}", path.display())));
+                    } else if !tr.descendants().any(|n| usize::from(n.text_range().start()) == *s && usize::from(n.text_range().end()) == *e) {
+                        fails.push((format!("C12:include:range-is-not-a-node-of-the-tagged-file:{k}"), format!("{s}..{e} in {}", path.display())));
+                    }
+                }
+                _ => fails.push((format!("C18:errors-tagged-with-unknown-file:{k}"), format!("{}", path.display()))),
+            }
+        }
+    }
+}
+
+fn run_impl(a: &Arrangement, l: &Laid) -> Result<Run, PanicInfo> {
+    let search: Option<Vec<PathBuf>> = a.search.as_ref().map(|s| s.iter().map(|d| l.dirs[*d].clone()).collect());
+    let needs_env = a.search.is_none();
+    let main_path = l.root.join("main").join("main.qasm");
+    let go = || {
+        guarded(|| {
+            macro_rules! finish {
+                ($res:expr, $main_text:expr) => {{
+                    let res = $res;
+                    let mut kinds = vec![];
+                    all_semantic_errors(res.semantic_errors(), &mut kinds);
+                    let mut tagged = vec![];
+                    collect_lists(res.semantic_errors(), &mut tagged);
+                    let mut inc = vec![];
+                    collect_included(res.syntax_result().included(), &mut inc);
+                    let mut span_fails = vec![];
+                    let tree = res.syntax_result().syntax_ast().filter(|a| a.have_parse()).map(|a| a.syntax_node());
+                    check_spans($main_text, tree, res.syntax_result().included(), &tagged, &mut span_fails);
+                    Run {
+                        stmts: res.program().stmts().iter().map(|s| format!("{s:?}")).collect(),
+                        symbols: res.symbol_table().verif_symbols().iter().map(|s| (s.name().to_string(), format!("{:?}", s.symbol_type()))).collect(),
+                        kinds: kinds.into_iter().map(|k| k.0).collect(),
+                        any_syntax: res.any_syntax_errors(),
+                        tagged,
+                        included_paths: inc.iter().map(|f| f.file_path().to_path_buf()).collect(),
+                        span_fails,
+                    }
+                }};
+            }
+            match a.entry {
+                Entry::StringWithSearch => finish!(parse_source_string_with_path_search(&a.main, Some("main.qasm"), search.as_deref()), Some(a.main.as_str())),
+                Entry::FileWithSearch => finish!(parse_source_file_with_search(&main_path, search.as_deref()), Some(a.main.as_str())),
+                Entry::FilePlain => finish!(parse_source_file(&main_path), Some(a.main.as_str())),
+            }
+        })
+    };
+    if needs_env {
+        let _g = ENV_LOCK.write().unwrap();
+        match &a.env {
+            Some(e) => {
+                let joined = std::env::join_paths(e.iter().map(|d| l.dirs[*d].clone())).unwrap();
+                std::env::set_var("QASM3_PATH", joined);
+            }
+            None => std::env::remove_var("QASM3_PATH"),
+        }
+        let r = go();
+        std::env::remove_var("QASM3_PATH");
+        r
+    } else {
+        let _g = ENV_LOCK.read().unwrap();
+        // a list is given: a set environment variable must be ignored. Setting it needs the write
+        // lock, so it is only set in the serialised cases; here it is whatever it is (unset).
+        go()
+    }
+}
+
+pub fn check_arrangement(a: &Arrangement, out: &mut Vec<Failure>) -> (bool, bool) {
+    let l = match materialise(a) {
+        Ok(l) => l,
+        Err(e) => {
+            out.push(Failure::new("HARNESS:fs:cannot-materialise", json!({"error": e.to_string()})));
+            return (false, false);
+        }
+    };
+    let detail = |what: String, exp: String| json!({"input": {"arrangement": format!("{a:?}")}, "actual": what, "expected": exp});
+    let mut files_read = vec![];
+    let mut syntax_fault = false;
+    let inlined = inline(a, &l, &a.main, 0, &mut files_read, &mut syntax_fault);
+    let reference = crate::pipeline::analyze(&inlined);
+    let got = run_impl(a, &l);
+    let nontrivial = files_read.len() >= 2 || a.files.iter().any(|f| f.dirs.len() >= 2);
+    match (got, reference) {
+        (Err(p), _) => {
+            out.push(Failure::new(format!("C18:{}", panic_key(&p)), detail(format!("{}:{} {}", p.file, p.line, p.msg), "no panic".into())));
+        }
+        (Ok(_), Err(_)) => {}
+        (Ok(g), Ok(r)) => {
+            let ref_syntax = r.any_syntax_errors();
+            // C11: any syntax diagnostic anywhere => flag, empty program, no semantic diagnostics
+            if ref_syntax != g.any_syntax {
+                out.push(Failure::new("C11:include:syntax-error-flag-differs-from-inlined-program", detail(format!("{}", g.any_syntax), format!("{ref_syntax}"))));
+            }
+            if g.any_syntax {
+                if !g.stmts.is_empty() {
+                    out.push(Failure::new("C11:include:program-not-empty-despite-syntax-errors", detail(format!("{} statements", g.stmts.len()), "0".into())));
+                }
+                if !g.kinds.is_empty() {
+                    out.push(Failure::new("C11:include:semantic-diagnostics-despite-syntax-errors", detail(format!("{:?}", g.kinds), "none".into())));
+                }
+            } else if !ref_syntax {
+                let rs: Vec<String> = r.program().stmts().iter().map(|s| format!("{s:?}")).collect();
+                if g.stmts != rs {
+                    let i = g.stmts.iter().zip(rs.iter()).position(|(x, y)| x != y).unwrap_or(g.stmts.len().min(rs.len()));
+                    out.push(Failure::new("C18:graph-differs-from-textual-inclusion", detail(format!("{} statements; first difference at #{i}: {:?}", g.stmts.len(), g.stmts.get(i)), format!("{} statements: {:?}", rs.len(), rs.get(i)))));
+                }
+                let rsym: Vec<(String, String)> = r.symbol_table().verif_symbols().iter().map(|s| (s.name().to_string(), format!("{:?}", s.symbol_type()))).collect();
+                if g.symbols != rsym {
+                    let gi: Vec<&String> = g.symbols.iter().map(|s| &s.0).collect();
+                    let ri: Vec<&String> = rsym.iter().map(|s| &s.0).collect();
+                    out.push(Failure::new("C18:symbols-differ-from-textual-inclusion", detail(format!("{:?}", &gi[gi.len().saturating_sub(14)..]), format!("{:?}", &ri[ri.len().saturating_sub(14)..]))));
+                }
+                // diagnostics: same multiset of kinds, except the file-access ones
+                let norm = |v: &[String]| {
+                    let mut m: BTreeMap<String, i64> = BTreeMap::new();
+                    for k in v {
+                        let k = k.split('(').next().unwrap_or(k).to_string();
+                        if k == "FileNotFound" || k == "IncludeNotInGlobalScopeError" {
+                            continue;
+                        }
+                        *m.entry(k).or_default() += 1;
+                    }
+                    m
+                };
+                let mut rk = vec![];
+                all_semantic_errors(r.semantic_errors(), &mut rk);
+                let rkinds: Vec<String> = rk.into_iter().map(|k| k.0).collect();
+                // in the inlined reference an include below global scope still names a file
+                if norm(&g.kinds) != norm(&rkinds) {
+                    out.push(Failure::new("C18:diagnostics-differ-from-textual-inclusion", detail(format!("{:?}", norm(&g.kinds)), format!("{:?}", norm(&rkinds)))));
+                }
+                // which files were read: exactly those of the reference resolution, in order
+                let canon: Vec<PathBuf> = files_read.iter().map(|p| std::fs::canonicalize(p).unwrap_or(p.clone())).collect();
+                let got_read: Vec<PathBuf> = g.included_paths.iter().filter(|p| p.is_file()).cloned().collect();
+                if got_read != canon {
+                    out.push(Failure::new("C18:resolved-files-differ", detail(format!("{got_read:?}"), format!("{canon:?}"))));
+                }
+                // diagnostics raised inside an included file are tagged with its canonical path
+                for (path, errs) in g.tagged.iter().skip(1) {
+                    if errs.is_empty() {
+                        continue;
+                    }
+                    let is_access = errs.iter().all(|e| e.0 == "FileNotFound");
+                    if !is_access && !canon.contains(path) {
+                        out.push(Failure::new("C18:include-errors-tagged-with-wrong-path", detail(format!("{}", path.display()), format!("one of {canon:?}"))));
+                    }
+                }
+                // missing file: FileNotFound on the path literal of the include statement
+                let n_missing_expected = count_unreadable(a, &l, &a.main, 0);
+                let n_fnf = g.kinds.iter().filter(|k| k.as_str() == "FileNotFound").count();
+                if n_fnf != n_missing_expected {
+                    out.push(Failure::new("C18:file-not-found-count", detail(format!("{n_fnf}"), format!("{n_missing_expected}"))));
+                }
+                for (_p, errs) in &g.tagged {
+                    for (k, s, e) in errs {
+                        if k == "FileNotFound" {
+                            // the range is a quoted path literal somewhere in an includer: check on the main text when it fits
+                            let lit_ok = a.main.get(*s..*e).map(|t| t.starts_with('"') && t.ends_with('"')).unwrap_or(false)
+                                || files_read.iter().any(|f| std::fs::read_to_string(f).ok().and_then(|t| t.get(*s..*e).map(|x| x.starts_with('"') && x.ends_with('"'))).unwrap_or(false));
+                            if !lit_ok {
+                                out.push(Failure::new("C18:file-not-found-range-is-not-the-path-literal", detail(format!("{s}..{e}"), "range of a quoted path".into())));
+                            }
+                        }
+                    }
+                }
+                let n_nested = a.main.matches("{ include \"").count();
+                let n_ing = g.kinds.iter().filter(|k| k.as_str() == "IncludeNotInGlobalScopeError").count();
+                if n_nested != n_ing {
+                    out.push(Failure::new("C18:include-below-global-scope-count", detail(format!("{n_ing}"), format!("{n_nested}"))));
+                }
+                if g.symbols.iter().any(|s| s.0 == "decoy_stdgates_was_read") {
+                    out.push(Failure::new("C18:stdgates-read-from-a-file", detail("decoy file was read".into(), "stdgates.inc is provided without any file".into())));
+                }
+            }
+            for (k, d) in &g.span_fails {
+                out.push(Failure::new(k.clone(), detail(d.clone(), String::new())));
+            }
+        }
+    }
+    let _ = std::fs::remove_dir_all(&l.root);
+    (true, nontrivial)
+}
+
+fn count_unreadable(a: &Arrangement, l: &Laid, text: &str, depth: usize) -> usize {
+    let mut n = 0;
+    for line in text.lines() {
+        let t = line.trim();
+        if let Some(rest) = t.strip_prefix("include \"") {
+            if let Some(name) = rest.strip_suffix("\";") {
+                if name == "stdgates.inc" {
+                    continue;
+                }
+                match resolve(a, l, name) {
+                    Some(p) if depth < 6 => {
+                        let body = std::fs::read_to_string(&p).unwrap_or_default();
+                        n += count_unreadable(a, l, &body, depth + 1);
+                    }
+                    _ => n += 1,
+                }
+            }
+        }
+    }
+    n
+}
+
+fn run_arrangements(ctx: &RunCtx, prefixes: &'static [&'static str], name: &str, n: u64) {
+    ctx.random(name, n, 200, |src| {
+        let a = gen_arrangement(src);
+        let mut rep = CaseReport::default();
+        let mut fails = vec![];
+        let (judged, nontrivial) = check_arrangement(&a, &mut fails);
+        rep.discarded = !judged;
+        rep.failures = fails.into_iter().filter(|f| prefixes.iter().any(|p| f.key.starts_with(p)) || f.key.starts_with("HARNESS:")).collect();
+        rep.class(format!("{:?}", a.entry));
+        rep.class(match (&a.search, &a.env) {
+            (Some(_), Some(_)) => "search-list+env-set",
+            (Some(_), None) => "search-list",
+            (None, Some(_)) => "env-only",
+            (None, None) => "no-search",
+        });
+        if nontrivial {
+            rep.nontrivial = Some(fnv64(format!("{a:?}").as_bytes()));
+        }
+        rep.sample = Some(format!("dirs={} files={:?} search={:?} env={:?} entry={:?}\n{}", a.n_dirs, a.files.iter().map(|f| (&f.name, &f.dirs)).collect::<Vec<_>>(), a.search, a.env, a.entry, a.main));
+        rep
+    });
+}
+
+pub fn replay_arrangement(prefix: &str, v: &serde_json::Value) -> Result<Vec<Failure>, String> {
+    let choices: Vec<u32> = v["choices"].as_array().ok_or("no choices")?.iter().filter_map(|x| x.as_u64().map(|n| n as u32)).collect();
+    let mut src = Src::new(&choices);
+    let a = gen_arrangement(&mut src);
+    let mut out = vec![];
+    check_arrangement(&a, &mut out);
+    cleanup_work();
+    Ok(out.into_iter().filter(|f| f.key.starts_with(prefix)).collect())
+}
+
+pub fn run_c18(ctx: &RunCtx) {
+    ctx.set_rule("file-system arrangements: 1-3 search directories, 1-4 include files with distinguishable contents (each copy declares a marker variable named after its file and directory), present in none/one/several directories, nested includes, missing files, includes below global scope, decoy stdgates.inc; search list given / absent with QASM3_PATH set or unset; three entry points. oracle (differential): analysis of main+files equals the analysis of the textually inlined program (reference resolution rule): graph, symbols, diagnostic kinds; files read = reference resolution in order; diagnostics inside an included file are tagged with its canonical path; FileNotFound sits on the path literal; IncludeNotInGlobalScopeError per nested include; stdgates.inc never read from disk; no panic. non-trivial = >=2 files read or a file present in >=2 directories; distinct by arrangement");
+    ctx.assume("include cycles are not generated (the code documents that it does not guard against them); cases that mutate QASM3_PATH are serialised under a process-wide lock; scratch directories live under harness/target/work and are removed");
+    let n = ctx.pick(4_000u64, 200_000u64);
+    run_arrangements(ctx, &["C18:"], "arrangement", n);
+    fixed_cases(ctx, "C18");
+    cleanup_work();
+}
+
+pub fn run_c11_includes(ctx: &RunCtx) {
+    let n = ctx.pick(3_000u64, 100_000u64);
+    run_arrangements(ctx, &["C11:"], "include-arrangement", n);
+    fixed_cases(ctx, "C11");
+    cleanup_work();
+}
+
+pub fn run_c12_includes(ctx: &RunCtx) {
+    let n = ctx.pick(3_000u64, 100_000u64);
+    run_arrangements(ctx, &["C12:"], "include-arrangement", n);
+    cleanup_work();
+}
+
+/// Fixed inputs around malformed include statements (gating and no-panic).
+fn fixed_cases(ctx: &RunCtx, prefix: &str) {
+    let cases: Vec<&str> = vec![
+        "include;",
+        "include \"001\";",
+        "include \"a\\qb\";",
+        "include \"no_such_file.qasm\";",
+        "include \"stdgates.inc\";",
+        "include \"stdgates.inc\"; include \"no_such_file.inc\"; int x = 1;",
+        "include \"a\\\n   \n  b.inc\";",
+        "include \"\";",
+        "include 'single.inc';",
+        "if (true) { include \"stdgates.inc\"; }",
+        "def f() { include \"nothing.inc\"; }",
+        "include \"/definitely/not/here.inc\";",
+    ];
+    let mut st = Stats::default();
+    for text in cases {
+        let mut rep = CaseReport::default();
+        let mut fails = vec![];
+        crate::pipeline::check_gating_source(text, &mut fails);
+        if crate::pipeline::clean_parse(text) {
+            if let Err(p) = crate::pipeline::analyze(text) {
+                fails.push(Failure::new(format!("C18:{}", panic_key(&p)), json!({"input": {"source": text}, "actual": p.msg})));
+            }
+        }
+        let pre = format!("{prefix}:");
+        rep.failures = fails.into_iter().filter(|f| f.key.starts_with(&pre)).collect();
+        rep.class("fixed-include-case");
+        rep.nontrivial = Some(fnv64(text.as_bytes()));
+        ctx.eval_local(prefix, &mut st, rep);
+    }
+    ctx.merge_stats(st);
+}
